@@ -268,6 +268,13 @@ func (c *FnCtx) unroll(fr *frame, li *loopInfo, st *State, entryPhi map[*ssa.Phi
 	if n > 4096 {
 		bail("unroll: trip count %d over the cap", n)
 	}
+	if c.bounded > 0 && c.dry == 0 {
+		// bounded stand-in runs stay small: give up rather than build a huge query
+		c.boundedIters += n
+		if c.boundedIters > 200 {
+			bail("bounded stand-in run too large (more than 200 unrolled iterations)")
+		}
+	}
 	c.unrolled++
 	if fr.unrolling == nil {
 		fr.unrolling = map[*loopInfo]bool{}
